@@ -18,7 +18,7 @@ import (
 	"gonum.org/v1/gonum/verifx/vrt"
 )
 
-var only = flag.String("workload", "", "comma separated subset of workloads: ex4,ex4u,small,large,ties,yen,dstar,dstar0,float (default all)")
+var only = flag.String("workload", "", "comma separated subset of workloads: ex4,ex4u,small,large,ties,yen,dstar,dstar0,yendec,float (default all)")
 
 func main() { vrt.Main("C13", run) }
 
@@ -77,6 +77,9 @@ func run(c *vrt.Ctx) {
 		vrt.Parallel(n, func(i int) {
 			runDStar(c, c.RNG("dstar0", i), 30, true)
 		})
+	}
+	if want("yendec") {
+		yenDecimal(c, c.Pick(2500, 30000))
 	}
 	if want("float") {
 		floatGraphs(c, c.Pick(1500, 25000))
@@ -212,9 +215,29 @@ func fullCheck(c *vrt.Ctx, r *vrt.Rand, g *RG, idx int, small bool) {
 			flavor = "trav-uniform"
 		}
 	}
+	switch idx % 11 {
+	case 8, 9:
+		flavor = "pw-only"
+	case 10:
+		flavor = "hide-weights"
+	}
 	b := build(r, g, flavor)
+	// The reference follows the documented weighting rule: a graph value that
+	// does not expose the weight interface a routine asks for is a
+	// uniform-cost graph for that routine.
+	var kAllPaths *K // reference for DijkstraAllPaths (asks for graph.Weighted)
+	switch flavor {
+	case "hide-weights":
+		g = g.unitCopy()
+	case "pw-only":
+		kAllPaths = newK(c, r, g.unitCopy(), b)
+		defer kAllPaths.flush()
+	}
 	k := newK(c, r, g, b)
 	defer k.flush()
+	if kAllPaths == nil {
+		kAllPaths = k
+	}
 	if c.WantSample() && g.numArcs() >= 3 {
 		c.Sample(map[string]any{"graph": g.String(), "flavor": flavor})
 	}
@@ -230,7 +253,7 @@ func fullCheck(c *vrt.Ctx, r *vrt.Rand, g *RG, idx int, small bool) {
 			k.runDijkstraFromTo(s, append(k.sampleTargets(8), s))
 		}
 	}
-	k.runDijkstraAllPaths()
+	kAllPaths.runDijkstraAllPaths()
 	k.runFloydWarshall()
 	k.runJohnson()
 
